@@ -406,6 +406,8 @@ func (t *Term) body() string {
 		fmt.Fprintf(&sb, "((_ zero_extend %d) %s)", t.P1, t.Args[0].ref())
 	case "sext":
 		fmt.Fprintf(&sb, "((_ sign_extend %d) %s)", t.P1, t.Args[0].ref())
+	case "int2bv64":
+		fmt.Fprintf(&sb, "((_ int2bv 64) %s)", t.Args[0].ref())
 	default:
 		sb.WriteByte('(')
 		sb.WriteString(t.Op)
